@@ -129,9 +129,12 @@ int va_is_live(const void* p) {
 }
 size_t va_block_size(const void* p) { return ((const va_hdr*)p - 1)->size; }
 va_hdr* va_first(void) { return head; }
-uint64_t va_image_hash(void) {
+uint64_t va_serial(void) { return serial; }
+uint64_t va_image_hash(void) { return va_image_hash_before(UINT64_MAX); }
+uint64_t va_image_hash_before(uint64_t limit) {
   uint64_t x = 0x1234;
   for (va_hdr* h = head; h; h = h->next) {
+    if (h->serial >= limit) continue;
     x = x * 0x100000001b3ull ^ (uint64_t)(uintptr_t)h;
     x = x * 0x100000001b3ull ^ h->size;
     const unsigned char* b = (const unsigned char*)(h + 1);
